@@ -1,8 +1,9 @@
 """C03 — input status is truthful and confirmed inputs are final."""
 from . import families as F
 from .simprops import generic_run, sizes, sim_replay
+from .p_queue import run_queue_correspondence
 LABELS = {"C03", "PANIC"}
 def run(ctx):
-    generic_run(ctx, LABELS, [("c01", lambda: F.fam_c01(ctx.rng, sizes(ctx, 300, 3000), tag="c03")), ("death2", lambda: F.fam_death(ctx.rng, sizes(ctx, 80, 600)))])
+    generic_run(ctx, LABELS, extra=run_queue_correspondence, plan=[("c01", lambda: F.fam_c01(ctx.rng, sizes(ctx, 300, 3000), tag="c03")), ("death2", lambda: F.fam_death(ctx.rng, sizes(ctx, 80, 600)))])
 def replay(ctx, path):
     return sim_replay(ctx, path, LABELS)
